@@ -21,7 +21,7 @@ ASSUMPTIONS = ["LifecycleObserver events are emitted in real execution order (on
 FLOORS = {"deps_checked": {"quick": 3000, "thorough": 40000}, "cyclic_rejected": {"quick": 40, "thorough": 400},
           "node_evals_ordered": {"quick": 20000, "thorough": 200000}, "child_brackets": {"quick": 500, "thorough": 5000},
           "deps_through_reference": {"quick": 100, "thorough": 1500}, "mesh_resumes_after_pause": {"quick": 200, "thorough": 3000},
-          "mesh_captured_throws": {"quick": 30, "thorough": 400}, "structural_case_node_evals": {"quick": 3000, "thorough": 40000}}
+          "mesh_captured_throws": {"quick": 12, "thorough": 250}, "structural_case_node_evals": {"quick": 3000, "thorough": 40000}}
 BATCH = 25
 
 
@@ -366,16 +366,19 @@ def generate(rng, tier, seed):
     # dependencies through collection / bundle paths and through dynamic children: collection sources, copies and mirrors over
     # the ten shapes, keyed maps, switches, reductions, references to sets / dictionaries (compiled-edge and scan-order oracles)
     from .gen_coll import gen_coll_case
-    from .c10 import gen_case10, gen_nested_map_case
+    from .c10 import gen_case10, gen_nested_map_case, gen_explicit_keys_case
+    from .c13 import gen_getitem_ref, gen_if_route
     from .c11 import gen_case11
     from .c12 import gen_case12
     from .c13 import gen_coll_ref
     for k in range(n // 4):
         nm = f"c01_{seed}_s{k}"
-        r = k % 6
+        r = k % 9
         c = (gen_coll_case(rng, nm, probes=True, copies=2) if r == 0 else gen_case10(rng, nm, k) if r == 1 else
              gen_case11(rng, nm, k) if r == 2 else gen_case12(rng, nm, k) if r == 3 else gen_coll_ref(rng, nm) if r == 4 else
-             gen_nested_map_case(rng, nm))        # r == 5: a map_ with a pass_through argument produced by a chain of nodes
+             gen_nested_map_case(rng, nm) if r == 5 else       # a map_ with a pass_through argument produced by a chain of nodes
+             gen_explicit_keys_case(rng, nm) if r == 6 else    # a map_ whose children follow an explicit key set
+             gen_getitem_ref(rng, nm) if r == 7 else gen_if_route(rng, nm))      # tsd[key] / if_ as sources of references
         c.meta["structural"] = 1
         cases.append(c)
     for k in range(n // 5):
